@@ -120,6 +120,10 @@ impl ContextData {
         self.rns_tool.as_ref().unwrap()
     }
 
+    /// verification accessor for the (crate-private) Galois tool of this level
+    #[cfg(feature = "verif")]
+    pub fn verif_galois_tool(&self) -> &GaloisTool { self.galois_tool.as_ref().unwrap() }
+
     /// The Galois transformation tool of this level of [ContextData].
     pub(crate) fn galois_tool(&self) -> &GaloisTool {
         self.galois_tool.as_ref().unwrap()
